@@ -444,8 +444,14 @@ func (d *driver) rawhttp(name, method, target string, headers map[string]any, bo
 	ev["status"], ev["body"], ev["leaks"], ev["location"], ev["ctype"] = resp.StatusCode, bs, leaks, resp.Header.Get("Location"), resp.Header.Get("Content-Type")
 }
 
+// wall time of the driver process in ms: lets the monitor bound the age of a chat (C15: history age)
+var procStart = time.Now()
+
 func (d *driver) emit(ev map[string]any) {
 	d.emu.Lock()
+	if _, ok := ev["wt"]; !ok {
+		ev["wt"] = time.Since(procStart).Milliseconds()
+	}
 	d.tr.Emit(ev)
 	d.emu.Unlock()
 }
@@ -686,9 +692,13 @@ func (d *driver) ping(c *client) bool {
 	case <-c.gone:
 		return false
 	case <-time.After(3 * time.Second):
+		pingLate.Add(1)
 		return false
 	}
 }
+
+// pings that were not answered in time since the last barrier: such a barrier proves nothing about what the server has handled
+var pingLate atomic.Int64
 
 func (d *driver) settle() {
 	names := []string{}
@@ -702,7 +712,7 @@ func (d *driver) settle() {
 		}
 		time.Sleep(12 * time.Millisecond)
 	}
-	d.emit(map[string]any{"ev": "settled", "alive": vt.B(d.srv.alive())})
+	d.emit(map[string]any{"ev": "settled", "alive": vt.B(d.srv.alive()), "late": pingLate.Swap(0)})
 }
 
 // ------------------------------------------------------------------ media (pion)
